@@ -16,7 +16,7 @@ def BOUND(tier):
 
 
 def RULE(tier):
-    return ("stateless exploration of the real Doist/DoDoer/Doer code: every doer forest shape in the tier's shape set x "
+    return ("" if tier == "quick" else sched.THOROUGH_NOTE + ". ") + ("stateless exploration of the real Doist/DoDoer/Doer code: every doer forest shape in the tier's shape set x "
             "every execution with <= %d deviations from the default answers (config tock/start/limit in {None,2T,2.5T,0.3,T,3T}, leaf kind, per-step yielded tock / return True/False/None / raise / complete-in-enter). Oracle: statement-derived: no-limit run returns right after the cycle of the last completion with done True; with limit L it stops after the first cycle whose end tyme >= start+L, done True only if nothing was alive; doer.done False inside enter, equals returned value after self-completion, never True otherwise. "
             "distinct_nontrivial = executions with >=1 deviation whose full event trace was not seen before." % BOUND(tier))
 
@@ -40,4 +40,4 @@ def harness(job, ch):
                    sample=dict(shape=repr(job[1]), trace=[list(map(str, e[:3])) for e in w.trace[:30]]))
 
 
-run_job, replay = standard(harness, BOUND)
+run_job, replay = standard(harness, BOUND, job_bound=sched.tier_bound)
